@@ -34,3 +34,22 @@ func vs_sameFloat(a, b *float64) bool {
 func vs_sameInt(a, b *int64) bool {
 	return (a == nil && b == nil) || (a != nil && b != nil && *a == *b)
 }
+
+// vs_bothArrays: both sides are array-typed (the item-count rows of the C13 catalogue).
+func vs_bothArrays(a, b *spec.SchemaProps) bool {
+	return isArrayType(a.Type) && isArrayType(b.Type)
+}
+
+// vs_plainPrims: both sides are primitive-typed and neither is a $ref
+// (the rows of the C13 catalogue about type, format, lengths, pattern, bounds).
+func vs_plainPrims(a, b *spec.SchemaProps) bool {
+	return isPrimitiveType(a.Type) && isPrimitiveType(b.Type) && !isRefType(a) && !isRefType(b)
+}
+
+func vs_typeChanged(a, b *spec.SchemaProps) bool {
+	return a.Type[0] != b.Type[0] || a.Format != b.Format
+}
+
+func vs_descriptionCode(c SpecChangeCode) bool {
+	return c == AddedDescripton || c == DeletedDescripton || c == ChangedDescripton
+}
